@@ -123,7 +123,7 @@ class Ctx:
         return cases
 
     # ------------------------------------------------------------------ harness
-    def harness(self, engine, cases, tag="", extra=(), timeout=3600, shards=1, crash_is_data=False):
+    def harness(self, engine, cases, tag="", extra=(), timeout=3600, shards=1, crash_is_data=True):
         """crash_is_data: the process under test being killed by a signal (SIGBUS, SIGSEGV, abort) is recorded as a
         `crash` event of the case that was running (the trace is written through event by event) and the shard goes on."""
         for i, c in enumerate(cases):
@@ -192,7 +192,7 @@ class Ctx:
                     done = 0
                     if ids:
                         done = next((i for i, c in enumerate(shard_cases) if c["id"] == ids[-1]), len(shard_cases) - 1) + 1
-                    lines.append(json.dumps(dict(ev="crash", signal=-p.returncode), separators=(",", ":")))
+                    lines.append(json.dumps(dict(ev="crash", signal=-p.returncode, id=(ids[-1] if ids else -1)), separators=(",", ":")))
                     with open(ptf + ".acc", "a") as acc:
                         acc.write("\n".join(lines) + "\n")
                     rest = shard_cases[done:]
@@ -294,6 +294,10 @@ class Ctx:
     # ------------------------------------------------------------------ verdict + evidence
     def finish(self, level, rule, assumptions, viol, extra_cov=None):
         prop = self.prop
+        # a process killed by a signal is reported by the trace specifications under the property that was being checked
+        for v in viol:
+            if v["sig"].startswith("ANY/"):
+                v["sig"] = prop + v["sig"][3:]
         mine = [v for v in viol if v["sig"].startswith(prop + "/")]
         known = json.load(open(os.path.join(ROOT, "known_findings.json")))
         open_sigs = {k["signature"]: k for k in known["findings"] if k["property"] == prop and k["status"] == "open"}
